@@ -307,7 +307,18 @@ class Lemma:
                     s3 = abnormal(kind)
                     # contract of break/continue (their own lemma): ap back at the loop's restore point, defeat = loop_defeat
                     s3.regs['ap'] = info.loop[2] if info.loop[2] is not None else self.entry.regs['ap']
-                    s3.regs['defeat'] = info.loop[3] if info.loop[3] is not None else self.entry.regs['defeat']
+                    if info.loop[2] is None and len(info.loop) > 5 and int(info.loop[5].array_num) != int(self.entry_stack.array_num):
+                        # the real LoopInfo's restore point is not the stack at the entry of the construct: break/continue release a different
+                        # set of arrays than the ones allocated since the loop was entered
+                        s3.regs['ap'] = c.fresh('ap_restore_point')
+                    # ... where loop_defeat is what the *real* LoopInfo of the innermost enclosing loop recorded (the break/continue lemma
+                    # restores exactly that): the immediate `halt`, or the defeat word as it was when the construct was entered
+                    if info.loop[3] is not None:
+                        s3.regs['defeat'] = info.loop[3]
+                    elif len(info.loop) > 4 and info.loop[4] == stdlib.halt:
+                        s3.regs['defeat'] = c.label('halt')
+                    else:
+                        s3.regs['defeat'] = self.entry.regs['defeat']
                     leaves.append(([], 'jump', info.loop[idx], s3))
             # exit_modes() records DEFEAT only for statement-level defeat calls: inside a try body / defeat function a block
             # may reach defeat from within an expression without DEFEAT being in its mode set
